@@ -330,35 +330,27 @@ Proof.
 Qed.
 
 Lemma visual_block_operator_stores_block t cur orig nd data :
-  orig <> cur ->
   tobj_cut (mkdoc t cur) (orig - cur) 0 TBLOCK = Some (nd, data) ->
   data = snd (doc_cut_selection (mkdoc t cur) (orig, BLOCK) true).
 Proof.
-  intros Hne. unfold tobj_cut, operator_range. cbn [dcur dtext].
+  unfold tobj_cut, operator_range. cbn [dcur dtext].
   change (TBLOCK =? EXCLUSIVE) with false. change (TBLOCK =? INCLUSIVE) with false.
   change (TBLOCK =? LINEWISE) with false. change (TBLOCK =? TBLOCK) with true.
   cbn [andb orb negb].
   change (tobj_selection_type TBLOCK) with BLOCK.
   destruct (orig - cur <? 0) eqn:Es.
-  - destruct (0 <=? orig - cur) eqn:E0; [lia|].
-    destruct (len t <? 0 + cur) eqn:El; [discriminate|].
+  - destruct (len t <? 0 + cur) eqn:El; [discriminate|].
     intros H. injection H as H. apply (f_equal snd) in H. cbn [snd] in H. rewrite <- H.
     apply cut_data_ext; lia.
-  - destruct (orig - cur <=? 0) eqn:E0; [lia|].
-    destruct (len t <? orig - cur + cur) eqn:El; [discriminate|].
+  - destruct (len t <? orig - cur + cur) eqn:El; [discriminate|].
     intros H. injection H as H. apply (f_equal snd) in H. cbn [snd] in H. rewrite <- H.
     apply cut_data_ext; lia.
 Qed.
 
-(* C09-F5 (residual): when the two corners coincide (a block of one cell) the
-   empty-range rule of TextObject.cut (commit f3ffc71) makes d / y a no-op,
-   while x cuts the cell.  "abc", C-v at 0: y stores nothing, x stores "a". *)
-Lemma visual_block_single_cell_refuted :
-  exists s sel, Inv (sb s) /\ snd sel = BLOCK /\ fst sel = bcur (sb s) /\
-    sring (snd (vi_visual s sel 1 0)) = sring s /\
-    ctext (snd (doc_cut_selection (cur_doc s) sel true)) <> [].
-Proof.
-  exists (mkst (mkbuf [97; 98; 99] 0) None [] None 0 [] true), (0, BLOCK).
-  split; [unfold Inv; cbn; lia|]. split; [reflexivity|]. split; [reflexivity|].
-  split; [vm_compute; reflexivity|]. vm_compute. discriminate.
-Qed.
+(* a one-cell block (C-v then y / d without moving): the operators store the
+   cell, like x (fixed by commit 0578190; before it they were a no-op) *)
+Lemma visual_block_single_cell_example :
+  let s := mkst (mkbuf [97; 98; 99] 0) None [] None 0 [] true in
+  ctext (ring_get (sring (snd (vi_visual s (0, BLOCK) 1 0)))) = [97] /\
+  ctext (snd (doc_cut_selection (cur_doc s) (0, BLOCK) true)) = [97].
+Proof. cbv zeta. split; vm_compute; reflexivity. Qed.
